@@ -177,6 +177,7 @@ const (
 	nVSCount = 3
 	nVSPow   = 4
 	nVSKeys  = 3
+	nVSRel   = 5 // next set derived from the current set: identical / powers changed / one power changed / last key replaced / reversed
 )
 
 func domValidatorSet(count, pow, keys int, keyOffset int, seed string, pkh, vph int) tmconsensus.ValidatorSet {
@@ -214,6 +215,40 @@ func domValidatorSet(count, pow, keys int, keyOffset int, seed string, pkh, vph 
 	}
 }
 
+// relatedNextSet builds the next validator set: independent of the current one (choices < nVSKeys of field 13),
+// or derived from it, because codecs are tempted to exploit that the two sets usually coincide.
+func relatedNextSet(sp []int, cur tmconsensus.ValidatorSet) tmconsensus.ValidatorSet {
+	if sp[13] < nVSKeys {
+		return domValidatorSet(vsCounts[1][sp[11]], sp[12], sp[13], 2, "NVS", sp[14], sp[15])
+	}
+	vals := append([]tmconsensus.Validator{}, cur.Validators...)
+	pubs := append([]gcrypto.PubKey{}, cur.PubKeys...)
+	out := tmconsensus.ValidatorSet{Validators: vals, PubKeys: pubs, PubKeyHash: cur.PubKeyHash, VotePowerHash: cur.VotePowerHash}
+	switch sp[13] - nVSKeys {
+	case 0: // identical
+	case 1: // same keys and key hash, every power changed
+		for i := range vals {
+			vals[i].Power += 1000 + uint64(i)
+		}
+		out.VotePowerHash = typ("NVS/vph-changed", 32)
+	case 2: // same keys and key hash, only the last power changed
+		vals[len(vals)-1].Power++
+		out.VotePowerHash = typ("NVS/vph-changed", 32)
+	case 3: // last key replaced
+		k := detKey(9)
+		vals[len(vals)-1].PubKey = k
+		pubs[len(pubs)-1] = k
+		out.PubKeyHash = typ("NVS/pkh-changed", 32)
+	case 4: // reversed order
+		for i, j := 0, len(vals)-1; i < j; i, j = i+1, j-1 {
+			vals[i], vals[j] = vals[j], vals[i]
+			pubs[i], pubs[j] = pubs[j], pubs[i]
+		}
+		out.PubKeyHash = typ("NVS/pkh-changed", 32)
+	}
+	return out
+}
+
 // ---------------------------------------------------------------------------
 // Kinds of values and their field tables.
 // ---------------------------------------------------------------------------
@@ -237,7 +272,7 @@ var headerFields = []fieldDesc{
 	{"ValidatorSet.VotePowerHash", nBytes},     // 10
 	{"NextValidatorSet.count", nVSCount},       // 11
 	{"NextValidatorSet.powers", nVSPow},        // 12
-	{"NextValidatorSet.keys", nVSKeys},         // 13
+	{"NextValidatorSet.keys", nVSKeys + nVSRel}, // 13: choices >= nVSKeys relate the next set to the current one
 	{"NextValidatorSet.PubKeyHash", nBytes},    // 14
 	{"NextValidatorSet.VotePowerHash", nBytes}, // 15
 	{"DataID", nBytes},                         // 16
@@ -297,7 +332,7 @@ func buildHeader(sp []int) tmconsensus.Header {
 			Proofs:     domProofs(sp[5], "PCP"),
 		},
 		ValidatorSet:     domValidatorSet(vsCounts[0][sp[6]], sp[7], sp[8], 0, "VS", sp[9], sp[10]),
-		NextValidatorSet: domValidatorSet(vsCounts[1][sp[11]], sp[12], sp[13], 2, "NVS", sp[14], sp[15]),
+		NextValidatorSet: relatedNextSet(sp, domValidatorSet(vsCounts[0][sp[6]], sp[7], sp[8], 0, "VS", sp[9], sp[10])),
 		DataID:           domBytes(sp[16], "DataID"),
 		PrevAppStateHash: domBytes(sp[17], "PrevAppStateHash"),
 		Annotations: tmconsensus.Annotations{
